@@ -22,7 +22,8 @@ def system(shape, envs=None, units=0):
         su = UnitsSystem("dm", "s", "mol") if units == 2 else UnitsSystem()
         net = RDNetwork(species=[Species("A", D=1.5, density=2.0, units_system=nu), Species("B", D={"e0": 0.5, "e1": 2.0}, density={"e1": 1.0}, units_system=nu)],
                         reactions=[Reaction("A -> B", kf=1.25, kr=0.5, units_system=nu)], environments=["e0", "e1"], units_system=nu)
-        state = [1.0 + 0.5 * k + 0.25 * (k % 3) for k in range(2 * n)]
+        # exact zeros too, at chemostated entries (k % 5 == 1, odd k) and elsewhere: an empty chemostated cell is still chemostated
+        state = [0.0 if ((k % 5 == 1 and k % 2 == 1) or k % 7 == 3) else 1.0 + 0.5 * k + 0.25 * (k % 3) for k in range(2 * n)]
         chem = [1 if k % 5 == 1 else 0 for k in range(2 * n)]
         if units == 1:
             state = UnitArray(state, "fmol")
